@@ -105,19 +105,47 @@ def allowed_paths(segs, trailing, o):
     return S
 
 
+_PSLC = {}
+
+
+def _psl():
+    if "p" not in _PSLC:
+        import ural.tld_data as D
+        from vlib.pslref import PSL
+        _PSLC["p"] = PSL(list(D.PUBLIC_SUFFIXES) + list(D.PRIVATE_SUFFIXES))
+    return _PSLC["p"]
+
+
 def host_ok(inp, out, o):
     """out labels must be in labels minus whole irrelevant labels (+ leading amp- removed)"""
     i = 0
     dropped = []
+    dropped_at = []
     first_kept = True
-    for lab in inp:
+    for pos, lab in enumerate(inp):
         if i < len(out) and (out[i] == lab or (first_kept and o["normalize_amp"] and lab.startswith("amp-") and out[i] in (lab[4:], urlref.host_labels(lab[4:])[0]))):   # what 'amp-' hid may be an A-label
             i += 1
             first_kept = False
         else:
             dropped.append(lab)
+            dropped_at.append(pos)
     if i != len(out):
         return False, "output labels are not a subsequence of the input labels"
+    # an irrelevant *subdomain* stands in front of the registrable domain: the domain's own label (mobile.de, m.fr, amp.dev) is no subdomain
+    if dropped_at:
+        try:
+            core = [l.lower() for l in inp]
+            while core and core[-1] == "":
+                core.pop()                      # root label of a fully qualified name
+            n = _psl().suffix_length(core)
+            ocore = [l.lower() for l in out]
+            while ocore and ocore[-1] == "":
+                ocore.pop()
+            # (labels may repeat — 'm.m.fr' -> 'm.fr' drops the *first* m —, so the test is positional: the label in front of the suffix stays there)
+            if n and n < len(core) and not core[-n - 1].startswith("amp-") and not (len(ocore) > n and ocore[-n - 1] == core[-n - 1]):
+                return False, "label %r removed although it is the registrable domain itself (public suffix %r), not a subdomain" % (inp[len(core) - n - 1], ".".join(core[-n:]))
+        except Exception:
+            pass
     for lab in dropped:
         if not o["strip_irrelevant_subdomains"]:
             return False, "label %r removed although strip_irrelevant_subdomains=False" % lab
@@ -199,6 +227,13 @@ def eval_norm(case):
     if unparseable(full):
         if out != url:
             res.append(("C05/unparseable-unchanged", desc + " = %r but the input cannot be parsed and must be returned unchanged" % (out,)))
+        # "whatever the options": with platform_aware too (the platform parsers see the string first)
+        try:
+            pa = _norm(url, o, quoted, platform_aware=True)
+            if pa != url:
+                res.append(("C05/unparseable-unchanged", desc + ": with platform_aware=True %r is returned, the input cannot be parsed and must be returned unchanged" % (pa,)))
+        except Exception as e:  # noqa
+            res.append(("C05/raises", desc + " with platform_aware=True raised %r" % (e,)))
         return res
     desc += " = %r" % (out,)
     try:
@@ -347,7 +382,8 @@ def _flips(url, o, quoted, had, b, desc):
 EVALUATORS = {"norm": eval_norm}
 
 UNPARSEABLE = ["", " ", "\n", "http://", "https://", "//", "http://example.com:99999/x", "http://example.com:port/x", "http://[::1/x", "http://a]b.com/",
-               "example.com:99999", "http://example.com:-1/", "http://[x/?u=/p", "http:///path", "http://:80/", "http://user@:80", "?q=1", "#f", "http://?q"]
+               "example.com:99999", "http://facebook.com:99999/x", "https://m.facebook.com:8o/zuck/posts/1", "http://youtube.com:99999/watch?v=dQw4w9WgXcQ", "youtu.be:123456/dQw4w9WgXcQ", "http://fb.me:port/x",
+               "http://[facebook.com/x", "http://example.com:-1/", "http://[x/?u=/p", "http:///path", "http://:80/", "http://user@:80", "?q=1", "#f", "http://?q"]
 
 
 def _feature_flags(case):
